@@ -10,6 +10,7 @@ import (
 	"github.com/relex/slog-agent/base"
 	"github.com/relex/slog-agent/defs"
 	"github.com/relex/slog-agent/util"
+	"github.com/relex/slog-agent/util/vhook"
 )
 
 // bufferer is an intermediate buffer buf which saves log chunks to disk temporarily if needed.
@@ -105,23 +106,28 @@ func (buf *bufferer) Accept(chunk base.LogChunk) {
 	// divide by 2 because channel length is not updated in time
 	if buf.feeder.NumOutput() >= defs.BufferMaxNumChunksInMemory/2 {
 		buf.logger.Debugf("unload chunk for queuing: id=%s len=%d", chunk.ID, len(chunk.Data))
+		vhook.E("AcceptDecide", "id", chunk.ID, "spill", true)
 		buf.chunkMan.OnChunkInput(false)
 		if !buf.chunkMan.UnloadOrDropChunk(&chunk) {
 			return
 		}
 	} else {
 		buf.logger.Debugf("pass chunk to queue: id=%s len=%d", chunk.ID, len(chunk.Data))
+		vhook.E("AcceptDecide", "id", chunk.ID, "spill", false)
 		buf.chunkMan.OnChunkInput(true)
 	}
 
+	vhook.G("hb.accept.enqueue")
 	select {
 	case buf.inputChannel <- chunk:
+		vhook.E("AcceptEnq", "id", chunk.ID, "ok", true)
 		if chunk.Data != nil {
 			buf.metrics.queuedChunksTransient.Inc()
 		} else {
 			buf.metrics.queuedChunksPersistent.Inc()
 		}
 	default:
+		vhook.E("AcceptEnq", "id", chunk.ID, "ok", false)
 		buf.chunkMan.OnChunkDropped(chunk)
 		if chunk.Data != nil {
 			buf.logger.Warnf("queue overflow, drop loaded chunk: id=%s len=%d", chunk.ID, len(chunk.Data))
@@ -159,10 +165,12 @@ RECOVERY_LOOP:
 	for _, chunk := range buf.chunkMan.ScanChunks() {
 		select {
 		case buf.inputChannel <- chunk:
+			vhook.E("Recover", "id", chunk.ID, "ok", true)
 			buf.chunkMan.OnChunkInputRecovered(chunk)
 			buf.metrics.queuedChunksPersistent.Inc()
 			numChunks++
 		default:
+			vhook.E("Recover", "id", chunk.ID, "ok", false)
 			buf.logger.Warnf("too many chunk files, skip id=%s", chunk.ID)
 			break RECOVERY_LOOP
 		}
